@@ -128,10 +128,10 @@ def setup_split(name, random):
     wp.params['splitter::seed'] = wp.const('p_seed', 'Int', 'long')
     wp.assume('(and (<= 0 p_seed) (<= p_seed 1024))')
     wp.seed_param = 'splitter::seed'
+    wp.calls.append((r'^idiv\|long \(long, (int|long)\)', h_idiv))    # one template body (proved as idiv<long,int> over the integers)
     if random:
         wp.params['splitter::random::train_per'] = wp.const('p_train_per', 'Int', 'long')
         wp.assume('(and (<= 10 p_train_per) (<= p_train_per 90))')
-        wp.calls.append((r'^idiv\|long \(long, int\)', h_idiv))
     wp.gf = wp.const('gf', 'Int').t     # arbitrary fold (folds >= 2, so this never narrows the inputs)
     wp.assume('(and (<= 0 gf) (< gf p_folds))')
     wp.env['samples.shuffles'] = V('0', 'Int')
